@@ -112,7 +112,7 @@ pub fn replay(run: &[Value], _sub: &str) -> Vec<Value> {
 /// A generated project: pcodegen functions whose blocks are enriched with pblockgen instruction groups.
 fn one_input(seed: u64, idx: u64, arch: &pblockgen::Arch) -> Value {
     let mut rng = Rng::new(seed ^ idx.wrapping_mul(0x9E37_79B9_7F4A_7C15) ^ 0xC12);
-    let knobs = Knobs { n_funcs: 1 + rng.below(3) as usize, max_blocks: 3 + rng.below(4) as usize, must_call: Vec::new(), lkm: false };
+    let knobs = Knobs { n_funcs: 1 + rng.below(3) as usize, max_blocks: 3 + rng.below(4) as usize, must_call: Vec::new(), lkm: false, lost_roots: false };
     let mut spec = pcodegen::gen_funcs(&mut rng, &knobs);
     for f in spec.funcs.iter_mut() {
         let nb = f.blocks.len();
